@@ -16,7 +16,7 @@ func init() {
 		explanation: "Decided (structural, for every input string): " +
 			"C09.goroutine — every goroutine started on behalf of ParseQuery runs a function that closes the channel it sends tokens on at every exit, and ParseQuery defers (on every path) a function that receives from that channel until it is closed; so no parse, wherever it stops, leaves the lexer goroutine blocked (or there is no goroutine at all); " +
 			"C09.eof — every path through the top-level parse function to a return that can carry a query takes the branch on which the next token's type equals the end-of-input token (paths ending in the diverging error helper are cut), so trailing tokens are never accepted; " +
-			"C09.phrange — the int32 placeholder number stored in the tree comes only from constants or from strconv.ParseInt(_, 10, bits<=32) with its error tested (or an explicit upper-bound test), so huge numbers cannot wrap; the `>= 1` test dominates the store; " +
+			"C09.phrange — the int32 placeholder number stored in the tree comes only from constants or from strconv.ParseInt(_, 10, bits<=32) with its error tested (or an explicit upper-bound test), so huge numbers cannot wrap; the `>= 1` test dominates the store (a value produced by a parser helper is followed into every operand the helper can return, judged by what is known at that return, and a helper's parameter back to the call's argument — so parse, tests and the conversion may live in a helper); " +
 			"C09.lexinput — the lexer scans exactly ParseQuery's argument; C09.unquote — the string decoder removes exactly one delimiter at each end of a value token before turning `\"\"` into one quote (so '\"\"' adjacent to the delimiters is kept); " +
 			"C09.panics — every panic in the parser package carries a value implementing error (or is the re-panic of a recovered runtime.Error), and ParseQuery defers a recover handler, so parse errors surface as errors. " +
 			"C09.progress — termination of the lexer: each state function is interpreted over the finite partition of the rune domain induced by the constants it compares the current rune with; every cycle of the state graph is shown to consume at least one rune (a direct next() with a rune present, or acceptRun(S) reached only with the current rune in S), and every loop inside the lexer calls next() on each iteration; " +
@@ -300,10 +300,15 @@ func c09PhRange(c *Ctx) {
 			}
 			n++
 			key := fmt.Sprintf("%s: store#%d", safeFname(fn), n)
-			why := boundedInt32(c, st.Val, st, 0, map[ssa.Value]bool{})
+			// The value may be produced (tested, converted) by a helper of the parser — `value, placeholder :=
+			// p.parseOperand()`: both walks below follow a helper's result into its return statements and judge each
+			// returned operand by what is known at the return it leaves by, and follow a helper's parameter back to the
+			// argument of the call they came in by (binds).
+			binds := phBinds{}
+			why := boundedInt32(c, st.Val, st, 0, map[ssa.Value]bool{}, binds)
 			if why == "" {
-				// and the >= 1 test: on every non-constant origin of the stored value (through phis), on the edge it arrives by
-				lower := lowerBounded(c, st.Val, st.Block(), st, map[ssa.Value]bool{})
+				// and the >= 1 test: on every non-constant origin of the stored value (through phis and helper returns), on the edge it arrives by
+				lower := lowerBounded(c, st.Val, st.Block(), st, map[ssa.Value]bool{}, binds, 0)
 				if lower {
 					c.r.ok(rule, key, "value comes from a 32-bit parse with tested error (or constants) and is known to be >= 1", c.w.ipos(i))
 				} else {
@@ -359,20 +364,86 @@ func blockDiverges(fc *flowCtx, b *ssa.BasicBlock) bool {
 	return false
 }
 
-// boundedInt32 returns "" if v (to be stored as int32) provably fits, else why not.
-func boundedInt32(c *Ctx, v ssa.Value, at ssa.Instruction, depth int, seen map[ssa.Value]bool) string {
+// phBinds records, for the parameters of the helpers the placeholder walks have entered through a call, the call and
+// the argument bound to the parameter there (a helper is entered from the one call whose result is being explained, so
+// the binding is exact for the value under consideration, not a join over all callers).
+type phBinds map[*ssa.Parameter]phBind
+
+type phBind struct {
+	call *ssa.Call
+	arg  ssa.Value
+}
+
+// enter binds callee's parameters to the arguments of call. If the helper was entered before from another call, what
+// the walk has memoised about values inside it was established under the other binding and is forgotten.
+func (b phBinds) enter(call *ssa.Call, callee *ssa.Function, seen map[ssa.Value]bool) {
+	for _, q := range callee.Params {
+		if old, ok := b[q]; ok && old.call != call {
+			for v := range seen {
+				if v.Parent() == callee {
+					delete(seen, v)
+				}
+			}
+			break
+		}
+	}
+	for _, q := range callee.Params {
+		if a := argFor(call, callee, q); a != nil {
+			b[q] = phBind{call, a}
+		}
+	}
+}
+
+// upperTested: an explicit test `v <= K` / `v < K` with K within int32 is known at `at` (v taken up to conversions).
+func upperTested(c *Ctx, v ssa.Value, at ssa.Instruction) bool {
+	if at == nil {
+		return false
+	}
+	for _, cm := range cmpsAtPruned(c.fc, at) {
+		if cm.Y == nil {
+			continue
+		}
+		if k, ok := constInt(cm.Y); ok && sameOrigin(cm.X, v) {
+			if (cm.Op == token.LEQ && k <= (1<<31)-1) || (cm.Op == token.LSS && k <= (1<<31)) {
+				return true
+			}
+		}
+	}
+	return false
+}
+
+// boundedInt32 returns "" if v (to be stored as int32) provably fits, else why not. `at` is the instruction at which v
+// is handed on (the store; inside a helper, the return v leaves by): an explicit upper-bound test counts if it is
+// known there. A value that is the result of a module helper is judged on every operand the helper can return for it
+// (so the parse, the test, or the conversion to int32 may live in the helper); a helper's parameter is judged on the
+// argument of the call the walk came in by.
+func boundedInt32(c *Ctx, v ssa.Value, at ssa.Instruction, depth int, seen map[ssa.Value]bool, binds phBinds) string {
+	if depth > 8 {
+		return "value flows too deep for the rule"
+	}
+	if q, ok := v.(*ssa.Parameter); ok {
+		// not memoised: the same helper may be entered again from another call with another argument
+		if upperTested(c, v, at) {
+			return ""
+		}
+		if b, ok := binds[q]; ok {
+			return boundedInt32(c, b.arg, b.call, depth+1, seen, binds)
+		}
+		return "unrecognised source parameter " + q.Name() + " of " + safeFname(q.Parent())
+	}
 	if seen[v] {
 		return ""
 	}
 	seen[v] = true
-	if depth > 6 {
-		return "value flows too deep for the rule"
-	}
 	if k, ok := constInt(v); ok {
 		if k >= -(1<<31) && k < (1<<31) {
 			return ""
 		}
 		return "constant out of range"
+	}
+	// an explicit upper bound test dominating the place the value is handed on
+	if upperTested(c, v, at) {
+		return ""
 	}
 	switch x := v.(type) {
 	case *ssa.Convert:
@@ -383,70 +454,64 @@ func boundedInt32(c *Ctx, v ssa.Value, at ssa.Instruction, depth int, seen map[s
 				return ""
 			}
 		}
-		// an explicit upper bound test dominating the store
-		for _, cm := range cmpsAtPruned(c.fc, at) {
-			if cm.Y == nil {
-				continue
-			}
-			if k, ok := constInt(cm.Y); ok && sameOrigin(cm.X, x.X) {
-				if (cm.Op == token.LEQ && k <= (1<<31)-1) || (cm.Op == token.LSS && k <= (1<<31)) {
-					return ""
-				}
-			}
-		}
-		return boundedInt32(c, x.X, at, depth+1, seen)
+		return boundedInt32(c, x.X, at, depth+1, seen, binds)
+	case *ssa.ChangeType:
+		return boundedInt32(c, x.X, at, depth+1, seen, binds)
 	case *ssa.Phi:
 		for _, e := range x.Edges {
-			if why := boundedInt32(c, e, at, depth+1, seen); why != "" {
+			if why := boundedInt32(c, e, at, depth+1, seen, binds); why != "" {
 				return why
 			}
 		}
 		return ""
-	case *ssa.Extract:
-		if call, ok := x.Tuple.(*ssa.Call); ok && x.Index == 0 {
-			name := calleeName(&call.Call)
-			if name == "strconv.ParseInt" || name == "strconv.ParseUint" {
-				bits, ok := constInt(call.Call.Args[2])
-				if !ok || bits > 32 || bits <= 0 || (name == "strconv.ParseUint" && bits > 31) {
-					return fmt.Sprintf("%s with bitSize %v", name, call.Call.Args[2])
+	case *ssa.Extract, *ssa.Call:
+		if e, isE := x.(*ssa.Extract); isE {
+			if call, ok := e.Tuple.(*ssa.Call); ok && e.Index == 0 {
+				name := calleeName(&call.Call)
+				if name == "strconv.ParseInt" || name == "strconv.ParseUint" {
+					bits, ok := constInt(call.Call.Args[2])
+					if !ok || bits > 32 || bits <= 0 || (name == "strconv.ParseUint" && bits > 31) {
+						return fmt.Sprintf("%s with bitSize %v", name, call.Call.Args[2])
+					}
+					ev := extractOf(call, 1)
+					out := c.fc.errTested(call.Parent(), ev, e)
+					if !out {
+						return name + " error is not tested before the value is used"
+					}
+					return ""
 				}
-				ev := extractOf(call, 1)
-				out := c.fc.errTested(call.Parent(), ev, x)
-				if !out {
-					return name + " error is not tested before the value is used"
+				if name == "strconv.Atoi" {
+					return "strconv.Atoi yields a platform int"
 				}
-				return ""
 			}
-			if name == "strconv.Atoi" {
-				return "strconv.Atoi yields a platform int"
+		}
+		// the result of a helper of the module: every operand it can return for this result, at its return
+		if call, callee, rets, vals, ok := resultReturns(c.w, v); ok {
+			binds.enter(call, callee, seen)
+			for k, rv := range vals {
+				if why := boundedInt32(c, rv, rets[k], depth+1, seen, binds); why != "" {
+					return why
+				}
 			}
+			return ""
+		}
+		if call, ok := x.(*ssa.Call); ok {
+			return "unrecognised source " + calleeName(&call.Call)
 		}
 		return "unrecognised source " + v.String()
-	case *ssa.Call:
-		f := calleeFunc(&x.Call)
-		if f != nil && c.w.inModule(f) && f.Blocks != nil {
-			var why string
-			allInstrs(f, func(i ssa.Instruction) {
-				if ret, ok := i.(*ssa.Return); ok && len(ret.Results) > 0 && why == "" {
-					why = boundedInt32(c, retVals(ret)[0], ret, depth+1, seen)
-				}
-			})
-			return why
-		}
-		name := calleeName(&x.Call)
-		return "unrecognised source " + name
 	}
 	return "unrecognised source " + v.String()
 }
 
-// errTested: every use of val (the value result) that is not itself the error test happens where err == nil is known.
+// errTested: every use of val (the value result) that is not itself the error test happens where err == nil is known
+// (also when the error branch ends in the diverging error helper instead of a return: `if err != nil { p.errorf(…) }`).
 func (fc *flowCtx) errTested(fn *ssa.Function, errv ssa.Value, val ssa.Value) bool {
 	if errv == nil {
 		return false
 	}
 	for _, u := range usesOf(val) {
 		okHere := false
-		for _, cm := range cmpsAt(u) {
+		for _, cm := range append(cmpsAt(u), cmpsAtPruned(fc, u)...) {
 			if cm.Op == token.EQL && cm.Y != nil && ((cm.X == errv && isNilConst(cm.Y)) || (cm.Y == errv && isNilConst(cm.X))) {
 				okHere = true
 			}
@@ -545,14 +610,13 @@ func c09Panics(c *Ctx) {
 }
 
 // lowerBounded: v >= 1 is known for every non-constant origin of v (constants are accepted as they are: 0 means "no placeholder").
-func lowerBounded(c *Ctx, v ssa.Value, blk *ssa.BasicBlock, at ssa.Instruction, seen map[ssa.Value]bool) bool {
+// Origins are followed through phis (the test may sit on the edge the value arrives by), into the returns of a module
+// helper whose result v is (the test may sit on the path to the return the value leaves by — `if placeholder < 1
+// { errorf }; return "", placeholder`), and from a helper's parameter to the argument of the call the walk came in by.
+func lowerBounded(c *Ctx, v ssa.Value, blk *ssa.BasicBlock, at ssa.Instruction, seen map[ssa.Value]bool, binds phBinds, depth int) bool {
 	v = peelConv(v)
-	if seen[v] {
-		return true
-	}
-	seen[v] = true
-	if _, ok := constInt(v); ok {
-		return true
+	if depth > 8 {
+		return false
 	}
 	has := func(cs []cmp) bool {
 		for _, cm := range cs {
@@ -566,6 +630,23 @@ func lowerBounded(c *Ctx, v ssa.Value, blk *ssa.BasicBlock, at ssa.Instruction, 
 			}
 		}
 		return false
+	}
+	if q, ok := v.(*ssa.Parameter); ok {
+		// not memoised: the same helper may be entered again from another call with another argument
+		if at != nil && has(cmpsAtPruned(c.fc, at)) {
+			return true
+		}
+		if b, ok := binds[q]; ok {
+			return lowerBounded(c, b.arg, b.call.Block(), b.call, seen, binds, depth+1)
+		}
+		return false
+	}
+	if seen[v] {
+		return true
+	}
+	seen[v] = true
+	if _, ok := constInt(v); ok {
+		return true
 	}
 	if at != nil && has(cmpsAtPruned(c.fc, at)) {
 		return true
@@ -600,9 +681,28 @@ func lowerBounded(c *Ctx, v ssa.Value, blk *ssa.BasicBlock, at ssa.Instruction, 
 				}
 			}
 			if !okEdge {
-				if _, isPhi := ev.(*ssa.Phi); isPhi && lowerBounded(c, ev, pred, nil, seen) {
-					continue
+				switch ev.(type) {
+				case *ssa.Phi:
+					if lowerBounded(c, ev, pred, nil, seen, binds, depth+1) {
+						continue
+					}
+				case *ssa.Call, *ssa.Extract, *ssa.Parameter:
+					// the value arriving by this edge was tested where it was produced (a helper) or before it came in
+					if lowerBounded(c, ev, pred, pred.Instrs[len(pred.Instrs)-1], seen, binds, depth+1) {
+						continue
+					}
 				}
+				return false
+			}
+		}
+		return true
+	}
+	// the result of a helper of the module: every operand it can return for this result must be >= 1 (or a constant)
+	// at the return it leaves by
+	if call, callee, rets, vals, ok := resultReturns(c.w, v); ok {
+		binds.enter(call, callee, seen)
+		for k, rv := range vals {
+			if !lowerBounded(c, rv, rets[k].Block(), rets[k], seen, binds, depth+1) {
 				return false
 			}
 		}
